@@ -1,5 +1,5 @@
 """C20 - Operands and targets are evaluated left-to-right exactly once (DESIGN 7/C20)."""
-import json, os, itertools
+import json, os, sys, itertools
 import cybuild
 
 TITLE = "Operands and targets are evaluated left-to-right exactly once"
@@ -814,6 +814,8 @@ def check_stmts(ctx, stmts, tag):
             continue
         ctx.case(stratum_of(s), inp, sig=src)
         if a[0] is None:
+            if os.environ.get("C20_DEBUG"):
+                print("BUILD", src, "\n".join(l for l in a[1].splitlines() if "arning" not in l)[-1500:], file=sys.stderr)
             ctx.corr_break("build", inp, a[1][:600], "module builds")
             continue
         pa, pr = parse_model(ma), parse_model(mr)
@@ -826,6 +828,8 @@ def check_stmts(ctx, stmts, tag):
         # (2) tie: the model of the generated code reproduces the compiled module's log exactly
         tie = (pa[0] == a[0] and pa[1] == a[1])
         if not tie:
+            if os.environ.get("C20_DEBUG"):
+                print("TIE", src, "\n  cy", " ".join(a[0]), "=>", a[1], "\n  md", " ".join(pa[0]), "=>", pa[1], file=sys.stderr)
             ctx.corr_break("gen-model-vs-compiled", inp, a, pa[:2])
         # (3) property oracle: compiled module vs CPython
         if dedup_bool(a[0]) != dedup_bool(o[0]) or a[1] != o[1]:
